@@ -124,3 +124,20 @@ package queue
 //@   sleep requires[sleeps-till-the-end-of-the-current-window] seq: gTillRead + d == dpq.currentWindowEndTime.UnixNano()
 //@   requires dpq.strategy.WindowQuota >= 0 && dpq.strategy.WindowSize > 0 && dpq.clock != nil && forall(r, *Request, chcap(r.doneCh) == 0)
 //@   loop 1 invariant[cfg] dpq.strategy.WindowQuota >= 0 && dpq.strategy.WindowSize > 0 && dpq.clock != nil && forall(r, *Request, chcap(r.doneCh) == 0)
+
+// A queue is built for ONE key: its window quota and window length are the ones of that key's strategy, and it is a new
+// object (the remedy plugin keeps queues per (remedy, strategy): when a remedy's strategy changes with a policy reload
+// the factory must hand out a queue with the NEW strategy, not the one it built before).
+//@ extern heap.Init
+//@   modifies nothing
+//@ extern ContextLogger.WithComponent
+//@   modifies nothing
+//@ extern DelayedPriorityQueue).ensureWindowIsUpdated
+//@   params dpq
+//@   modifies dpq.currentWindowEndTime, dpq.currentWindowCounter, now
+//@ func NewInMemoryDelayedPriorityQueue
+//@   prop C10
+//@   allocates DelayedPriorityQueue, map, ContextLogger
+//@   modifies now
+//@   spawn modifies heap
+//@   ensures[a-new-queue-with-the-strategy-of-its-key] result != nil && !old(allocated(result)) && result.strategy == queueKey.Strategy
